@@ -111,6 +111,21 @@ func (e *ErrWrap) Error() string {
 }
 func (e *ErrWrap) Unwrap() error { return e.Cause }
 
+// ErrWrapV: a wrapping error of value type that is not comparable (slice field)
+type ErrWrapV struct {
+	Msg   string
+	Cause error
+	tags  []string
+}
+
+func (e ErrWrapV) Error() string {
+	if e.Cause == nil {
+		return e.Msg
+	}
+	return e.Msg + ": " + safeErrorText(e.Cause)
+}
+func (e ErrWrapV) Unwrap() error { return e.Cause }
+
 // error that is also a Stringer (Error wins in fmt)
 type ErrStringer struct{ S string }
 
